@@ -574,6 +574,17 @@ impl<T: Clone, N, S: Storage<T, N>> Cluster<T, N, S> {
         if votes > quorum {
             self.state = ClusterState::Leader;
             self.term = request.term;
+            // What this node learned about the other nodes' logs while it was a
+            // follower says nothing about what they hold of this leader's log.
+            let index = self.index;
+            self.nodes
+                .iter_mut()
+                .filter(|node| node.index != index)
+                .for_each(|node| {
+                    node.log_index = 0;
+                    node.log_term = 0;
+                    node.log_commit = 0;
+                });
             return Some(self.heartbeat_no_timer());
         }
 
